@@ -76,7 +76,7 @@ CHECKS = {
    technique="deterministic simulation at spec-step granularity: seeded interleavings, time-outs, failure-detector answers and crashes over the real generated Raft archetypes; invariant oracles after every step; shrunk replay files",
    ref="6 (C08)"),
  "C09": dict(
-   text="Level A (eleven runs in twelve): same Raft execution as C08 with 1-3 concurrent clients issuing Puts with unique values and Gets; a quarter of the plain runs are calm (timers as in a healthy deployment, so that many operations are acknowledged), and every run ends with a final-read phase (faults stop, optionally the leader is first cut off until another server leads, then one Get per key), so that a lost acknowledged write becomes visible in the history. Level B (one run in twelve): the shipped bootstrap of systems/raftkvs (real relaxed mailboxes, monitors, failure detectors, election timer, CustomInChan, LocalShared variables, optionally PersistentLog on in-memory badger) under the simulator's scheduler, clock and network, clients through the real bootstrap.Client.Run with request time-outs, a server cut off for a window and/or a server stopped. In both, the history (invoke/return stamped with event sequence numbers, unanswered Puts pending for ever) is checked with porcupine against a key-value map, outside the simulation. One recorded known finding: a Put re-sent after a client time-out is appended and applied twice (no de-duplication in spec or Go); histories in which no Put was re-sent are judged strictly.",
+   text="Level A (three runs in four): same Raft execution as C08 with 1-3 concurrent clients issuing Puts with unique values and Gets; a quarter of the plain runs are calm (timers as in a healthy deployment, so that many operations are acknowledged), and every run ends with a final-read phase (faults stop, optionally the leader is first cut off until another server leads, then one Get per key), so that a lost acknowledged write becomes visible in the history. Level B (one run in four): the shipped bootstrap of systems/raftkvs (real relaxed mailboxes, monitors, failure detectors, election timer, CustomInChan, LocalShared variables, optionally PersistentLog on in-memory badger) under the simulator's scheduler, clock and network, clients through the real bootstrap.Client.Run with request time-outs, a server cut off for a window and/or a server stopped. In both, the history (invoke/return stamped with event sequence numbers, unanswered Puts pending for ever) is checked with porcupine against a key-value map, outside the simulation. One recorded known finding: a Put re-sent after a client time-out is appended and applied twice (no de-duplication in spec or Go); histories in which no Put was re-sent are judged strictly.",
    note="Trusted: porcupine; history stamps taken at the commit of the client's clientLoop/rcvResp labels (level A) or around bootstrap.Client.Run's request/response channels (level B); progress at level B is not judged; the recorded finding (a re-sent Put is appended to the log again) is attributed only to histories that become linearizable once the re-sent Puts may take effect twice.",
    technique="deterministic simulation + linearizability check (porcupine) of the recorded client history",
    ref="6 (C09)"),
